@@ -5,8 +5,10 @@ C16 line-protocol driver.
   sort <order> <items>           sortRoutes on described values     → `ok i,j,…` | `ok .` | `over20`
   site <variant> <items>         a generated site block through the whole adapter; the model's
                                  answer is that of `sort = <items>` (variant = spelling choices)
-  adapt|madapt <text>            \
-  perm <text> <seed>              | adapter-wide clauses: evaluated by the implementation-side
+  adapt|madapt <text>            adapter-wide clauses (totality, determinism, validity): evaluated by
+                                 the implementation-side oracle only; the model answers for the
+                                 first stage, the lexer                     → `lex:ok:<#tokens>` | `lex:err`
+  perm <text> <seed>             \
   eqv <textA> <textB>             | oracle only, no model answer            → `oracle-only`
   leak <textP> <textT>           /
 
@@ -16,6 +18,7 @@ C16 line-protocol driver.
 -/
 import CaddyModel.C16.Model
 import CaddyModel.C16.Stable
+import CaddyModel.C16.LexProps
 
 namespace CaddyModel.C16
 
@@ -102,8 +105,8 @@ def handle : List String → String
       if items == "." || (items.splitOn ";").all siteItemOK then answerSort Gen.defaultDirectiveOrder its
       else "bad-op"
     | _, _ => "bad-op"
-  | ["adapt", t] => if (hexField t).isSome then "oracle-only" else "bad-op"
-  | ["madapt", t] => if (hexField t).isSome then "oracle-only" else "bad-op"
+  | ["adapt", t] => match hexField t with | some b => lexSummary b | none => "bad-op"
+  | ["madapt", t] => match hexField t with | some b => lexSummary b | none => "bad-op"
   | ["perm", t, seed] => if (hexField t).isSome && (canonNat seed).isSome then "oracle-only" else "bad-op"
   | ["eqv", a, b] => if (hexField a).isSome && (hexField b).isSome then "oracle-only" else "bad-op"
   | ["leak", a, b] => if (hexField a).isSome && (hexField b).isSome then "oracle-only" else "bad-op"
